@@ -7,7 +7,7 @@ from . import base
 TRUSTED_BASE = base.TRUSTED_BASE + ['Python `str(int)`/`int(str)` and the two `re` patterns of _parseformatstr are modelled by hand-written digit and prefix parsers (Model/Digits.lean, Model/Dtype.lean)']
 ASSUMPTIONS = base.ASSUMPTIONS + ['fxp_sum(x, dtype=...) is counted as a construction route (it is the anchored user of utils.get_sizes_from_dtype)',
                                   'Q-notation parsing is demanded only when m = n_word - n_frac >= 0 (as the property says)']
-RULE = ('DR lines: (configured notation, format, complex) -> dtype attribute and get_dtype("Q"/"fxp"); DP lines: a format string through constructor / resize(dtype=) / fxp_sum(dtype=). Enumeration: signed x n_word 1..256 '
+RULE = ('DR lines: (configured notation, format, complex) -> dtype attribute and get_dtype("Q"/"fxp") of an object that reached the format directly, by resize(signed=), by a full resize or through like=+signed=; DP lines: a format string through constructor / resize(dtype=) / fxp_sum(dtype=). Enumeration: signed x n_word 1..256 '
         '(every 3rd word in quick) x n_frac in -8..n_word+8 (all for n_word<=12, boundary and random ones above) x complex (n_word<=52) x both notations x both configured defaults x upper/lower case x S/U and Q/UQ spellings x explicit + sign; '
         'a small malformed stream. non-trivial = negative or oversized n_frac, complex suffix, Q notation, or non-default case/spelling')
 TECHNIQUE = 'Lean 4 theorems (parse(render f) = f for fxp and Q/UQ/S/U notations incl. negative and oversized n_frac and the complex suffix, case-insensitivity, get_dtype(notation) independent of the default, render injective) + differential correspondence'
@@ -19,7 +19,18 @@ LEVEL_NOTE = 'Trusted: Lean kernel + standard axioms; decimal conversion and reg
 def exec_DR(t):
     cfg, s, n, f, cx = t[0], t[1] == 's', int(t[2]), int(t[3]), t[4] == '1'
     try:
-        mk = lambda: Fxp(0j if cx else None, s, n, f, dtype_notation=cfg)
+        v0 = 0j if cx else None
+        h = (n + f) % 4 if n <= 200 else 0
+        def mk():
+            # the format is reached directly or through a history that ends in it (the dtype string must follow the format)
+            if h == 0:
+                return Fxp(v0, s, n, f, dtype_notation=cfg)
+            if h == 1:
+                x = Fxp(v0, not s, n, f, dtype_notation=cfg); x.resize(signed=s); return x
+            if h == 2:
+                x = Fxp(v0, not s, n + 3, f - 1, dtype_notation=cfg); _ = x.dtype; x.resize(s, n, f); return x
+            ref = Fxp(v0, not s, n, f, dtype_notation=cfg); _ = ref.dtype
+            return Fxp(v0, like=ref, signed=s)
         a = mk().dtype
         b = mk().get_dtype('Q')
         c = mk().get_dtype('fxp')
